@@ -157,6 +157,10 @@ def validate(text, ndigits=3, allow_text=False, require_stops=False):
                 fr = prop(ch, "fill-rule")
                 if fr not in (None, "", "nonzero"):
                     bad.append(f"path at {p} has fill-rule {fr!r}")
+                # "a plain fill": what a path says it says in presentation attributes; a leftover style declaration list
+                # (e.g. vendor properties the conversion could not turn into attributes) is not part of the subset
+                if (ch.get("style") or "").strip():
+                    bad.append(f"path at {p} carries a style attribute {ch.get('style')!r}")
                 d = ch.get("d") or ""
                 try:
                     cmds = R1.exploded(R1.parse(d))
